@@ -35,6 +35,16 @@ def handle : List String → String
       let d := match describeLast k with
         | .ofResult => "ofResult" | .ofOther => "ofOther" | .raises => "raises"
       s!"describe={d}"
+  | ["decl", kind, p, s] =>
+    let d? : Option Decl := match kind with
+      | "number" => some (.number (decOptNat p) (decOptNat s)) | "int" => some .intFamily | "float" => some .floatFamily | "text" => some .text
+      | "boolean" => some .boolean | "date" => some .date | "time" => some .time | "tsNtz" => some .tsNtz | "tsPlain" => some (.tsPlain (decOptNat p))
+      | "tsTz" => some .tsTz | "binary" => some .binary | "variant" => some .variant | _ => none
+    match d? with
+    | none => "bad-op"
+    | some d =>
+      let enc (c : SfType × Option Nat × Option Nat) := s!"{c.1.code}|{encOptNat c.2.1}|{encOptNat c.2.2}"
+      s!"impl={(describedCore d).elim "raise" enc}\tspec={enc (declaredCore d)}\tfinding={(declFinding d).getD "-"}"
   | ["dkind", k] =>
     match parseKind k with
     | none => "bad-op"
